@@ -13,6 +13,7 @@ import (
 	"fmt"
 	"runtime"
 	"sort"
+	"unsafe"
 )
 
 // Mode of the process-wide scheduler.
@@ -28,9 +29,13 @@ var epoch int
 
 // Epoch identifies the current execution; state left behind in process-wide objects (package-level
 // mutexes) by an abandoned execution is recognised by its stale epoch.
+//
+//go:norace
 func Epoch() int { return epoch }
 
 // Cur returns the running execution, or nil when the shims must behave like the real thing.
+//
+//go:norace
 func Cur() *Exec {
 	if mode == ModeActive {
 		return active
@@ -39,6 +44,8 @@ func Cur() *Exec {
 }
 
 // Mode reports the scheduler mode (used by shims to make deferred unlocks harmless during abort).
+//
+//go:norace
 func CurMode() int { return mode }
 
 // Op describes what a thread is about to do.
@@ -124,9 +131,17 @@ type Exec struct {
 
 	// Free-form per-execution storage for harnesses and shims.
 	Vars map[string]interface{}
+
+	// PreTeardown, when set, runs after the last scheduled step and before the remaining threads
+	// are unwound (the race pass reads the detector's log here: what unwinding threads touch is
+	// not part of the execution).
+	PreTeardown func()
+	join        int // address used as the thread-end -> harness happens-before token (race builds)
 }
 
 // Begin installs a new execution. Only one may exist at a time in a process.
+//
+//go:norace
 func Begin(prefix []int, stepCap int) *Exec {
 	if mode != ModeOff {
 		panic("sched: Begin while another execution is active")
@@ -140,42 +155,69 @@ func Begin(prefix []int, stepCap int) *Exec {
 
 // Spawn registers a new logical thread. May be called before Run (by the harness) or by a running
 // thread (vrt.Go).
+//
+//go:norace
 func (x *Exec) Spawn(name string, fn func()) *Thread {
 	t := &Thread{ID: len(x.threads), Name: name, wake: make(chan int), x: x}
 	t.pending = Op{Kind: "start"}
 	x.threads = append(x.threads, t)
-	go func() {
-		defer func() {
-			t.done = true
-			x.yield <- struct{}{}
-		}()
-		v := <-t.wake
-		if v != 0 {
-			return
-		}
-		t.started = true
-		defer func() {
-			if r := recover(); r != nil {
-				t.Panic = r
-				buf := make([]byte, 4096)
-				n := runtime.Stack(buf, false)
-				t.Stack = string(buf[:n])
-			}
-		}()
-		fn()
-	}()
+	go threadMain(x, t, fn)
 	return t
 }
 
+// threadMain is the body of a thread's goroutine. The bookkeeping of the scheduler is kept out of
+// the race detector's sight (go:norace; the directive does not reach closures, hence named
+// functions): only the code under test is to be judged.
+//
+//go:norace
+func threadMain(x *Exec, t *Thread, fn func()) {
+	defer threadExit(x, t)
+	raceDisable()
+	v := <-t.wake
+	raceEnable()
+	if v != 0 {
+		return
+	}
+	t.started = true
+	defer threadRecover(t)
+	fn()
+}
+
+//go:norace
+func threadRecover(t *Thread) {
+	if r := recover(); r != nil {
+		t.Panic = r
+		buf := make([]byte, 4096)
+		n := runtime.Stack(buf, false)
+		t.Stack = string(buf[:n])
+	}
+}
+
+//go:norace
+func threadExit(x *Exec, t *Thread) {
+	t.done = true
+	// thread end happens-before whatever the harness does after Run
+	RaceReleaseMerge(unsafe.Pointer(&x.join))
+	raceDisable()
+	x.yield <- struct{}{}
+}
+
 // CurThread returns the running thread.
+//
+//go:norace
 func (x *Exec) CurThread() *Thread { return x.cur }
 
 // Threads returns all threads.
+//
+//go:norace
 func (x *Exec) Threads() []*Thread { return x.threads }
 
+//go:norace
 func (t *Thread) Done() bool { return t.done }
 
 // PendingKind reports what the thread is waiting to do ("sleep", "lock", ...).
+//
+//go:norace
 func (t *Thread) PendingKind() string {
 	if t.done {
 		return "done"
@@ -185,6 +227,8 @@ func (t *Thread) PendingKind() string {
 
 // Yield hands the baton back; returns when the scheduler selects this thread again, at which time
 // op.Enabled() held.
+//
+//go:norace
 func (x *Exec) Yield(op Op) {
 	t := x.cur
 	if t == nil {
@@ -192,13 +236,16 @@ func (x *Exec) Yield(op Op) {
 		return
 	}
 	t.pending = op
+	raceDisable() // the hand-off itself must not order the threads' memory accesses
 	x.yield <- struct{}{}
 	v := <-t.wake
+	raceEnable()
 	if v != 0 {
 		runtime.Goexit()
 	}
 }
 
+//go:norace
 func (x *Exec) nextChoice(n int) (int, bool) {
 	if x.pos < len(x.prefix) {
 		c := x.prefix[x.pos]
@@ -215,6 +262,8 @@ func (x *Exec) nextChoice(n int) (int, bool) {
 
 // Choose is an environment choice point (fault injection, short write, dial result ...).
 // Alternative 0 is the default answer.
+//
+//go:norace
 func (x *Exec) Choose(n int, label string) int {
 	if n <= 1 {
 		return 0
@@ -225,6 +274,7 @@ func (x *Exec) Choose(n int, label string) int {
 	return c
 }
 
+//go:norace
 func (t *Thread) enabled() bool {
 	if t.done {
 		return false
@@ -240,8 +290,15 @@ func (t *Thread) enabled() bool {
 
 // Run drives the execution until every thread finished, a deadlock, the step cap, or divergence.
 // It always tears down the remaining threads and returns with the scheduler off.
+//
+//go:norace
 func (x *Exec) Run() {
-	defer x.teardown()
+	raceDisable()
+	defer func() {
+		x.teardown()
+		raceEnable()
+		RaceAcquire(unsafe.Pointer(&x.join))
+	}()
 	for {
 		if x.Diverged != "" {
 			return
@@ -332,7 +389,11 @@ func (x *Exec) Run() {
 	}
 }
 
+//go:norace
 func (x *Exec) teardown() {
+	if x.PreTeardown != nil {
+		x.PreTeardown()
+	}
 	mode = ModeAborting
 	for _, t := range x.threads {
 		if !t.done {
@@ -348,6 +409,8 @@ func (x *Exec) teardown() {
 }
 
 // Costs returns the cumulative (preemptions, faults) of Choices[:i].
+//
+//go:norace
 func (x *Exec) Costs(i int) (int, int) {
 	p, f := 0, 0
 	for k := 0; k < i && k < len(x.Points); k++ {
